@@ -24,6 +24,7 @@ func checkC05(c *Check, a *Anchors) {
 	c05Generates(c, a)
 	c05Mtime(c, a)
 	timestampStateIsReference(c, a)
+	globKeepsOtherMatches(c, a)
 	setupOrder(c, a, "setup-order")
 	// "any edit causes the commands to run again" also needs that queries between the edit and the run do not record the new fingerprint
 	c12DryImplied(c, a)
@@ -562,6 +563,34 @@ func c05Generates(c *Check, a *Anchors) {
 		}
 	}
 	c.Decide(flows, "generates-checked", "generates-in-max-time@"+fnDisplay(ts), ts.Decl.Pos(), "Globs(t.Generates) flows into getMaxTime", "the timestamp checker no longer compares the sources with the generates files")
+	// sibling agreement: "a missing generates file causes the commands to run again" holds for both methods, so the timestamp
+	// checker's returns that can say 'up to date' are dominated by the same per-entry existence check
+	if loop != nil {
+		inTS := false
+		if loopFB == ts {
+			inTS = true
+		}
+		f := NewFlow(c.P, ts, func(call *ast.CallExpr, obj types.Object) string {
+			if fn, ok := obj.(*types.Func); ok && c.P.DeclOf(fn) == loopFB && loopFB != up {
+				return "generates-check"
+			}
+			return ""
+		})
+		f.Run()
+		okTS, nTrue := true, 0
+		whyTS := ""
+		for _, r := range f.Returns {
+			if len(r.Results) == 2 && !constIs(tinfo, r.Results[0], "false") {
+				nTrue++
+				if st := f.At[r]; !inTS && !st.Has("true:generates-check") {
+					okTS = false
+					whyTS = st.String()
+				}
+			}
+		}
+		c.Decide(okTS && nTrue > 0, "generates-checked", "true-only-after-existence-check@"+fnDisplay(ts), ts.Decl.Pos(), "every return that can yield true is dominated by the per-entry existence check",
+			"the timestamp checker can answer 'up to date' without the per-entry existence check of the generates files that the checksum checker performs (Globs silently drops entries that match nothing): deleting an output does not make the task run again; must-facts: "+whyTS)
+	}
 }
 
 func c05Mtime(c *Check, a *Anchors) {
